@@ -15,6 +15,8 @@ package main
 //   events {wait_ms}                                        events captured since the previous events step
 //   sleep  {ms}
 //   dial   {c, addr}      plain TCP dial to a real address (FTP passive data connections)
+//   portaccept {c, d}     listens on a loopback port, sends PORT for it on the FTP control connection c, accepts the server's data connection as d
+//   pasvdial {c, d}       sends PASV on the FTP control connection c, reads the 227 reply and dials the port it names as d
 
 import (
 	"bytes"
@@ -37,6 +39,7 @@ import (
 type scStep struct {
 	Op        string `json:"op"`
 	C         string `json:"c,omitempty"`
+	D         string `json:"d,omitempty"`
 	Laddr     string `json:"laddr,omitempty"`
 	Raddr     string `json:"raddr,omitempty"`
 	Addr      string `json:"addr,omitempty"`
@@ -50,6 +53,8 @@ type scStep struct {
 	WaitMs    int    `json:"wait_ms,omitempty"`
 	Ms        int    `json:"ms,omitempty"`
 }
+
+var pasvRe = regexp.MustCompile(`227 [^\r\n]*\(\d+,\d+,\d+,\d+,(\d+),(\d+)\)`)
 
 type scScenario struct {
 	ID    int      `json:"id"`
@@ -223,6 +228,62 @@ func runScript(m *memListener, sc scScenario, concurrent bool) scResult {
 			}
 			clients[st.C] = newSClient(cl)
 			res.Obs = append(res.Obs, scObs{Op: "dial"})
+		case "portaccept":
+			c := clients[st.C]
+			if c == nil {
+				res.Obs = append(res.Obs, scObs{Op: "portaccept", Err: "no such connection"})
+				continue
+			}
+			ln, err := net.Listen("tcp", "127.0.0.1:0")
+			if err != nil {
+				res.Obs = append(res.Obs, scObs{Op: "portaccept", Err: err.Error()})
+				continue
+			}
+			port := ln.Addr().(*net.TCPAddr).Port
+			fmt.Fprintf(c.conn, "PORT 127,0,0,1,%d,%d\r\n", port/256, port%256)
+			ln.(*net.TCPListener).SetDeadline(time.Now().Add(3 * time.Second))
+			dc, err := ln.Accept()
+			ln.Close()
+			if err != nil {
+				res.Obs = append(res.Obs, scObs{Op: "portaccept", Err: err.Error()})
+				continue
+			}
+			clients[st.D] = newSClient(dc)
+			res.Obs = append(res.Obs, scObs{Op: "portaccept"})
+		case "pasvdial":
+			c := clients[st.C]
+			if c == nil {
+				res.Obs = append(res.Obs, scObs{Op: "pasvdial", Err: "no such connection"})
+				continue
+			}
+			c.mu.Lock()
+			from := len(c.buf)
+			c.mu.Unlock()
+			c.conn.Write([]byte("PASV\r\n"))
+			port := 0
+			for t0 := time.Now(); time.Since(t0) < 3*time.Second && port == 0; time.Sleep(5 * time.Millisecond) {
+				c.mu.Lock()
+				if from > len(c.buf) {
+					from = 0
+				}
+				if m := pasvRe.FindSubmatch(c.buf[from:]); m != nil {
+					hi, _ := strconv.Atoi(string(m[1]))
+					lo, _ := strconv.Atoi(string(m[2]))
+					port = hi*256 + lo
+				}
+				c.mu.Unlock()
+			}
+			if port == 0 {
+				res.Obs = append(res.Obs, scObs{Op: "pasvdial", Err: "no 227 reply"})
+				continue
+			}
+			cl, err := net.DialTimeout("tcp", fmt.Sprintf("127.0.0.1:%d", port), 2*time.Second)
+			if err != nil {
+				res.Obs = append(res.Obs, scObs{Op: "pasvdial", Err: err.Error()})
+				continue
+			}
+			clients[st.D] = newSClient(cl)
+			res.Obs = append(res.Obs, scObs{Op: "pasvdial"})
 		case "send":
 			c := clients[st.C]
 			if c == nil {
